@@ -994,19 +994,40 @@ def _merge_and_deliver(ctx: Ctx, fi: FuncInfo, items: str,
                             "not found")
         else:
             hi = None
-            parts = [src(v) for v in scan.test.values]
+
+            def norm_cmp(v: ast.expr) -> str:
+                """A comparison with its sides in a fixed order."""
+                if isinstance(v, ast.Compare) and len(v.ops) == 1:
+                    l_, r_ = src(v.left), src(v.comparators[0])
+                    op = type(v.ops[0])
+                    if op in (ast.Eq, ast.NotEq):
+                        a_, b_ = sorted((l_, r_))
+                        return f"{a_}{'==' if op is ast.Eq else '!='}{b_}"
+                    if op is ast.Gt:
+                        return f"{r_}<{l_}"
+                    if op is ast.GtE:
+                        return f"{r_}<={l_}"
+                return src(v)
+            parts = [norm_cmp(v) for v in scan.test.values]
             for v in scan.test.values:
-                if isinstance(v, ast.Compare) and isinstance(
-                        v.left, ast.Name) and src(v.comparators[0]) == nn:
-                    hi = v.left.id
+                if isinstance(v, ast.Compare) and len(v.ops) == 1:
+                    l_, r_ = v.left, v.comparators[0]
+                    if isinstance(v.ops[0], ast.Lt) and isinstance(
+                            l_, ast.Name) and src(r_) == nn:
+                        hi = l_.id
+                    if isinstance(v.ops[0], ast.Gt) and isinstance(
+                            r_, ast.Name) and src(l_) == nn:
+                        hi = r_.id
             cur = next((src(s.targets[0] if isinstance(s, ast.Assign)
                             else s.target) for s in mb if isinstance(
                 s, (ast.Assign, ast.AnnAssign)) and s.value is not None
                 and src(s.value) == f"{items}[{lo}]"), None)
             if hi is None or cur is None or not isinstance(
                     scan.test.op, ast.And) or sorted(parts) != sorted(
-                    [f"{hi}<{nn}", f"{items}[{hi}]=={cur}"]) or [
-                    src(s) for s in scan.body] != [f"{hi}+=1"]:
+                    [f"{hi}<{nn}", "==".join(sorted(
+                        (f"{items}[{hi}]", cur)))]) or [
+                    src(s) for s in scan.body] not in (
+                        [f"{hi}+=1"], [f"{hi}={hi}+1"], [f"{hi}=1+{hi}"]):
                 problems.append("the run of equal items is not scanned as "
                                 "`while hi < n and items[hi] == cur: hi += "
                                 "1`")
@@ -1016,7 +1037,8 @@ def _merge_and_deliver(ctx: Ctx, fi: FuncInfo, items: str,
                 if want_mult not in seq:
                     problems.append("the multiplicity hi - lo is not "
                                     "appended to the kept item")
-                if src(dele.test) != f"{lo}<{hi}" or sorted(
+                if src(dele.test) not in (f"{lo}<{hi}", f"{hi}>{lo}") \
+                        or sorted(
                         src(s) for s in dele.body) != sorted(
                         [f"del{items}[{hi}]", f"{hi}-=1", f"{nn}-=1"]):
                     problems.append("duplicates are not deleted one by one "
